@@ -46,8 +46,8 @@ def num(value: Any) -> Optional[Fraction]:
 
 
 @st.composite
-def file_strategy(draw: Any, hist: gen.GenCfg, countries: Tuple[str, ...] = ("us", "us", "generic", "ie", "jp"), to_dates: bool = False, max_assets: int = 3, **kw: Any) -> Dict[str, Any]:
-    case = draw(filegen.file_case(countries=countries, hist=hist, windows=to_dates, allow_from=False, langs=False, max_assets=max_assets, **kw))
+def file_strategy(draw: Any, hist: gen.GenCfg, countries: Tuple[str, ...] = ("us", "us", "generic", "ie", "jp"), to_dates: bool = False, from_dates: bool = False, max_assets: int = 3, **kw: Any) -> Dict[str, Any]:
+    case = draw(filegen.file_case(countries=countries, hist=hist, windows=to_dates or from_dates, allow_from=from_dates, langs=False, max_assets=max_assets, **kw))
     case["lang"] = "en" if case["country"] == "jp" else None
     case["e2e"] = True
     return case
